@@ -816,6 +816,7 @@ theorem Ext.mem {l l' : List Timer} (h : Ext l l') {τ : Timer} (hm : τ ∈ l) 
 def Src (timers : List Timer) (T : Target) : Reason → Prop
   | .manual => T.manualStop = true
   | .drained => True
+  | .failed => True
   | .killed => T.manualKill = true ∨ ∃ τ ∈ timers, τ.kind = .killAfter ∧ τ.sentAt ≠ []
   | .exitAfter ms => ∃ τ ∈ timers, τ.kind = .exitAfter ∧ asMillis τ.period = ms ∧ τ.sentAt ≠ []
 
@@ -828,6 +829,7 @@ theorem Src.mono {l l' : List Timer} {T T' : Target} (he : Ext l l')
   cases r with
   | manual => exact hs h
   | drained => trivial
+  | failed => trivial
   | killed =>
     rcases h with h | ⟨τ, hm, h1, h2⟩
     · exact .inl (hk h)
@@ -855,6 +857,7 @@ theorem reasonOk_of_src {s : State} {r : Reason} {te : Nat} (h : Src s.timers s.
   cases r with
   | manual => exact h
   | drained => rfl
+  | failed => rfl
   | killed =>
     rcases h with h | ⟨τ, hm, h1, h2⟩
     · simp [reasonOk, h]
@@ -877,6 +880,7 @@ theorem reasonOk_mono {s s' : State} (he : Ext s.timers s'.timers)
   cases r with
   | manual => exact hs h
   | drained => rfl
+  | failed => rfl
   | killed =>
     simp only [reasonOk, Bool.or_eq_true, List.any_eq_true, Bool.and_eq_true, beq_iff_eq] at h ⊢
     rcases h with h | ⟨τ, hm, h1, h2⟩
@@ -1322,7 +1326,7 @@ theorem Inv.enterPs {s : State} (h : Inv s) (r : Reason) (hsrc : Src s.timers s.
     (c4 : T0.manualStop = s.target.manualStop) (c5 : T0.manualKill = s.target.manualKill)
     (c6 : ∀ hd ∈ T0.handled, handledOk s hd = true) :
     Inv { s with target := { T0 with stopping := some (r, s.now),
-                                     closedAt := some (T0.closedAt.getD s.now), mbox := [] } } :=
+                                     closedAt := some (T0.closedAt.getD s.now), mbox := [], poison := none } } :=
   { tinv := by
       intro τ hτ
       simp only [c1]
@@ -1412,6 +1416,17 @@ theorem Inv.target {s : State} (h : Inv s) : Inv (step s .target) := by
             rcases hh with hh | ⟨m, hm, rfl⟩
             · exact h.handled_ok hd hh
             · exact h.handled_of_mbox hm
+          cases hpo : s.target.poison with
+          | some n =>
+            simp only
+            refine h.exitWith .failed trivial _ (.inr ⟨_, rfl, rfl, hs.symm, by simpa using hk, rfl, rfl, ?_⟩)
+            intro hd hh
+            simp only [List.mem_append, List.mem_map] at hh
+            rcases hh with hh | ⟨m, hm, rfl⟩
+            · exact h.handled_ok hd hh
+            · exact h.handled_of_mbox (List.mem_of_mem_take hm)
+          | none =>
+          simp only
           by_cases hdr : s.target.draining = true
           · simp only [hdr, ↓reduceIte]
             refine h.endLoop .drained trivial _ rfl rfl ?_ ?_ rfl rfl ?_
@@ -1484,6 +1499,25 @@ theorem Inv.dropHandle {s : State} (h : Inv s) (i : Nat) : Inv (step s (.dropHan
     mbox_ok := h.mbox_ok
     handled_ok := fun hd hh => handledOk_mono (s := s) (Ext.refl _) (h.handled_ok hd hh) }
 
+theorem Inv.fail {s : State} (h : Inv s) : Inv (step s .fail) := by
+  have e : step s .fail = { s with target := s.target.poisonMsg } := rfl
+  rw [e]
+  unfold Target.poisonMsg
+  split
+  · exact
+      { tinv := h.tinv
+        closed_le := h.closed_le
+        exit_ok := by
+          intro rr te e
+          obtain ⟨a, b, c⟩ := h.exit_ok rr te e
+          exact ⟨a, b, reasonOk_mono (s := s) (Ext.refl _) id id c⟩
+        stop_src := fun rr e => (h.stop_src rr e).mono (Ext.refl _) id id
+        stopping_src := fun rr ts e => (h.stopping_src rr ts e).mono (Ext.refl _) id id
+        kill_src := fun e => (h.kill_src e).mono (Ext.refl _) id id
+        mbox_ok := h.mbox_ok
+        handled_ok := fun hd hh => handledOk_mono (s := s) (Ext.refl _) (h.handled_ok hd hh) }
+  · exact h
+
 theorem Inv.step {s : State} (h : Inv s) (op : Op) : Inv (step s op) := by
   cases op with
   | create k p => exact h.create k p
@@ -1499,6 +1533,7 @@ theorem Inv.step {s : State} (h : Inv s) (op : Op) : Inv (step s op) := by
   | hold => exact h.hold
   | psrelease => exact h.psrelease
   | dropHandle i => exact h.dropHandle i
+  | fail => exact h.fail
 
 theorem Inv.steps {s : State} (h : Inv s) (ops : List Op) : Inv (steps s ops) := by
   induction ops generalizing s with
@@ -1770,6 +1805,7 @@ theorem calm_now {s : State} {op : Op} (hc : op.calm = true) : (step s op).now =
   | hold => rfl
   | psrelease => rfl
   | dropHandle j => rfl
+  | fail => rfl
 
 theorem calm_length {s : State} {op : Op} (hc : op.calm = true) :
     (step s op).timers.length = s.timers.length := by
@@ -1793,6 +1829,7 @@ theorem calm_length {s : State} {op : Op} (hc : op.calm = true) :
   | hold => rfl
   | psrelease => rfl
   | dropHandle j => rfl
+  | fail => rfl
 
 theorem QuietAt.fire {s : State} (_h : Inv s) (i : Nat) : QuietAt i (step s (.fire i)) := by
   intro σ hσ
@@ -1844,6 +1881,7 @@ theorem QuietAt.calm {s : State} {i : Nat} (h : Inv s) (hq : QuietAt i s) {op : 
   | hold => exact hq
   | psrelease => exact hq
   | dropHandle j => exact hq
+  | fail => exact hq
 
 theorem QuietAt.create {s : State} {i : Nat} (hq : QuietAt i s) (hi : i < s.timers.length) (k : Kind) (p : Nat) :
     QuietAt i (step s (.create k p)) := by
@@ -2053,6 +2091,7 @@ theorem MInv.step {s : State} (hm : MInv s) (hi : Inv s) {op : Op} (hnt : ∀ d,
   | hold => exact ⟨hm.visits_le, hm.mt⟩
   | psrelease => exact ⟨hm.visits_le, hm.mt⟩
   | dropHandle j => exact ⟨hm.visits_le, hm.mt⟩
+  | fail => exact ⟨hm.visits_le, hm.mt⟩
   | mark =>
     refine ⟨?_, ?_⟩
     · intro c hc
@@ -2292,6 +2331,23 @@ theorem BInv.mstep {s : State} (h : BInv s) (m : MOp) : BInv (mstep s m) := by
     apply BInv.of_calm h.inv h.minv
     · intro op hop; simp at hop; rcases hop with rfl | rfl <;> rfl
     · intro i _; exact .inl (h.quiet i)
+  | fail =>
+    have e : expand s .fail = [.fail, .target] ++ [.mark] := rfl
+    rw [e, steps_snoc]
+    apply BInv.of_calm h.inv h.minv
+    · intro op hop; simp at hop; rcases hop with rfl | rfl <;> rfl
+    · intro i _; exact .inl (h.quiet i)
+  | advFail d =>
+    have e : expand s (.advFail d) =
+        [.tick d] ++ (([.fail, .target] ++ fireAll s.timers.length ++ [.target]) ++ [.mark]) := by
+      simp [expand]
+    rw [e, steps_append, steps_snoc, steps_single]
+    apply BInv.of_calm (h.inv.step _) (h.minv.tick h.quiet d)
+    · intro op hop
+      exact calm_mem [.target] [.fail, .target] (by intro o ho; simp at ho; rcases ho with rfl | rfl <;> rfl) op hop
+        (by intro o ho; simp at ho; subst ho; rfl)
+    · intro i hi
+      exact .inr (List.mem_append_left _ (List.mem_append_right _ (fire_mem_fireAll hi)))
   | dropHandle j =>
     have e : expand s (.dropHandle j) = [.dropHandle j] ++ [.mark] := rfl
     rw [e, steps_snoc]
